@@ -84,11 +84,13 @@ def cholesky(a):
             s_ = s_ - L[j, k] * L[j, k]
         d = s_ if hasattr(s_, "sqrt") else SV.lift(s_)
         # contract: input positive definite => pivot > 0
-        dv = d.v if hasattr(d, "v") else d
-        cur().add_side(dv.e > 0)
+        dv = d.v if hasattr(d, "v") else (d.c[0] if hasattr(d, "c") else d)  # dual: value; series: leading coefficient
+        if isinstance(dv, SV):
+            cur().add_side(dv.e > 0)
         L[j, j] = d.sqrt()
-        lv = L[j, j].v if hasattr(L[j, j], "v") else L[j, j]
-        cur().add_side(lv.e > 0)
+        lv = L[j, j].v if hasattr(L[j, j], "v") else (L[j, j].c[0] if hasattr(L[j, j], "c") else L[j, j])
+        if isinstance(lv, SV):
+            cur().add_side(lv.e > 0)
         for i in range(j + 1, n):
             s_ = a[i, j]
             for k in range(j):
